@@ -43,7 +43,7 @@ def plan(tier, seed, rng, scale):
     descs = []
     for cmd in CMDS:
         reps = {'build': 10, 'align-fasta': 4, 'align-skf': 3, 'map-fasta': 6, 'map-skf': 4, 'distance': 5}.get(cmd, 6)
-        reps = int(reps * (1 if tier == 'quick' else 25) * scale) or 1
+        reps = int(reps * (4 if tier == 'quick' else 40) * scale) or 1
         for i in range(reps):
             d = {'cmd': cmd, 'seed': rng.getrandbits(32), 'nruns': 5 if tier == 'quick' else 9}
             if cmd in ('build', 'align-fasta', 'align-skf', 'map-fasta', 'map-skf'):
